@@ -1,0 +1,155 @@
+//! Verification hooks, compiled only with the `verif-hooks` cargo feature.
+//!
+//! Provides a thread-local virtual clock and deterministic random source that shadow the
+//! `instant` and `rand` crates inside the protocol code, plus codec entry points.
+
+/// Thread-local virtual clock.
+pub mod clock {
+    use std::cell::Cell;
+    thread_local! {
+        static NOW_US: Cell<u64> = const { Cell::new(1_000_000) };
+        static AUTO_TICK_US: Cell<u64> = const { Cell::new(0) };
+    }
+    /// Current virtual time in microseconds.
+    pub fn now_micros() -> u64 {
+        let t = NOW_US.with(|c| c.get());
+        let a = AUTO_TICK_US.with(|c| c.get());
+        if a > 0 {
+            NOW_US.with(|c| c.set(t + a));
+        }
+        t
+    }
+    /// Current virtual time in milliseconds.
+    pub fn now_millis() -> u64 {
+        now_micros() / 1000
+    }
+    /// Sets the virtual time (microseconds).
+    pub fn set_micros(t: u64) {
+        NOW_US.with(|c| c.set(t));
+    }
+    /// Advances the virtual time by `ms` milliseconds.
+    pub fn advance_millis(ms: u64) {
+        NOW_US.with(|c| c.set(c.get() + ms * 1000));
+    }
+    /// Every clock read advances the clock by this many microseconds (0 = off).
+    pub fn set_auto_tick_micros(us: u64) {
+        AUTO_TICK_US.with(|c| c.set(us));
+    }
+}
+
+/// Shadows the `instant` crate.
+pub mod instant {
+    pub use std::time::Duration;
+    /// Virtual instant.
+    #[derive(Copy, Clone, Debug, PartialEq, Eq, PartialOrd, Ord, Hash)]
+    pub struct Instant(u64);
+    impl Instant {
+        /// Reads the virtual clock.
+        pub fn now() -> Self {
+            Instant(super::clock::now_micros())
+        }
+    }
+    impl std::ops::Add<Duration> for Instant {
+        type Output = Instant;
+        fn add(self, rhs: Duration) -> Instant {
+            Instant(self.0.saturating_add(rhs.as_micros().min(u64::MAX as u128 / 4) as u64))
+        }
+    }
+    impl std::ops::Sub<Instant> for Instant {
+        type Output = Duration;
+        fn sub(self, rhs: Instant) -> Duration {
+            Duration::from_micros(self.0.saturating_sub(rhs.0))
+        }
+    }
+}
+
+/// Shadows the `rand` crate (only `random`).
+pub mod rand {
+    use std::cell::Cell;
+    thread_local! {
+        static STATE: Cell<u64> = const { Cell::new(0x9E37_79B9_7F4A_7C15) };
+    }
+    /// Seeds the deterministic generator of this thread.
+    pub fn seed(s: u64) {
+        STATE.with(|c| c.set(s ^ 0x9E37_79B9_7F4A_7C15));
+    }
+    fn next() -> u64 {
+        STATE.with(|c| {
+            let mut z = c.get().wrapping_add(0x9E37_79B9_7F4A_7C15);
+            c.set(z);
+            z = (z ^ (z >> 30)).wrapping_mul(0xBF58_476D_1CE4_E5B9);
+            z = (z ^ (z >> 27)).wrapping_mul(0x94D0_49BB_1331_11EB);
+            z ^ (z >> 31)
+        })
+    }
+    /// Types that can be drawn from the generator.
+    pub trait FromU64 {
+        /// Conversion.
+        fn from_u64(v: u64) -> Self;
+    }
+    impl FromU64 for u16 {
+        fn from_u64(v: u64) -> Self {
+            v as u16
+        }
+    }
+    impl FromU64 for u32 {
+        fn from_u64(v: u64) -> Self {
+            v as u32
+        }
+    }
+    /// Deterministic stand-in for `rand::random`.
+    pub fn random<T: FromU64>() -> T {
+        T::from_u64(next())
+    }
+}
+
+/// Wall clock in ms, derived from the virtual clock.
+pub fn millis_since_epoch() -> u128 {
+    1_700_000_000_000u128 + clock::now_millis() as u128
+}
+
+/// Codec entry point: encode.
+pub fn encode<'a>(reference: &[u8], inputs: impl Iterator<Item = &'a Vec<u8>>) -> Vec<u8> {
+    crate::network::compression::encode(reference, inputs)
+}
+/// Codec entry point: decode.
+pub fn decode(
+    reference: &[u8],
+    data: &[u8],
+) -> Result<Vec<Vec<u8>>, Box<dyn std::error::Error + Send + Sync>> {
+    crate::network::compression::decode(reference, data)
+}
+
+/// Sizes of one endpoint's buffers.
+#[derive(Debug, Clone, Default, PartialEq, Eq)]
+pub struct EndpointBuffers {
+    /// Spectator endpoint?
+    pub spectator: bool,
+    /// Unacked inputs.
+    pub pending_output: usize,
+    /// Remembered received inputs.
+    pub recv_inputs: usize,
+    /// Checksums awaiting comparison.
+    pub pending_checksums: usize,
+    /// Outgoing messages not yet flushed.
+    pub send_queue: usize,
+    /// Endpoint events not yet handled.
+    pub event_queue: usize,
+    /// Outstanding sync nonces.
+    pub sync_random_requests: usize,
+}
+
+/// Sizes of a session's buffers.
+#[derive(Debug, Clone, Default, PartialEq, Eq)]
+pub struct SessionBuffers {
+    /// User-facing events.
+    pub event_queue: usize,
+    /// Frames waiting in `outgoing_local_inputs`.
+    pub outgoing_local_inputs: usize,
+    /// Pending local inputs.
+    pub pending_local_inputs: usize,
+    /// Local checksum history.
+    pub local_checksum_history: usize,
+    /// Endpoints.
+    pub endpoints: Vec<EndpointBuffers>,
+}
